@@ -1,0 +1,24 @@
+//go:build verif
+
+package pmtiles
+
+// Exported aliases of internal functions for the verification harness in /verif.
+// Compiled only with -tags verif; adds no behaviour.
+
+import "bytes"
+
+func VerifFindTile(entries []EntryV3, tileID uint64) (EntryV3, bool) {
+	return findTile(entries, tileID)
+}
+
+func VerifDeserializeEntriesChecked(data []byte, compression Compression) ([]EntryV3, error) {
+	return deserializeEntriesChecked(bytes.NewBuffer(data), compression)
+}
+
+func VerifBuildRootsLeaves(entries []EntryV3, leafSize int, compression Compression) ([]byte, []byte, int) {
+	return buildRootsLeaves(entries, leafSize, compression)
+}
+
+func VerifOptimizeDirectories(entries []EntryV3, targetRootLen int, compression Compression) ([]byte, []byte, int) {
+	return optimizeDirectories(entries, targetRootLen, compression)
+}
